@@ -107,7 +107,7 @@ breaking:
 
 func workspaces(quick bool) []*wsDef {
 	all := []*wsDef{
-		wsOpts(), wsExt(), wsSvc(), wsTwoMod(), wsNest(), wsPlain(), wsAnyOpt(), wsComments(), wsLintCfg(),
+		wsOpts(), wsExt(), wsSvc(), wsTwoMod(), wsNest(), wsPlain(), wsAnyOpt(), wsComments(), wsLintCfg(), wsScoped(),
 		wsEditions(), wsWorkV1(), wsGroups(), wsSubdirModule(), wsOptsV2(), wsSvcNoSource(), wsNestNamed(),
 		wsThreeMod(), wsAnyOptProto2(), wsWeird(), wsBig(),
 	}
@@ -780,6 +780,12 @@ message Payload {
   string text = 1;
   double ratio = 2;
   repeated Payload sub = 3;
+  // a payload type that is nested two levels deep: looked up by URL in the resolver of the image
+  message Part {
+    message Leaf {
+      string v = 1;
+    }
+  }
 }
 extend google.protobuf.MessageOptions {
   google.protobuf.Any detail = 53001;
@@ -809,6 +815,9 @@ message U {
   };
   option (o.details) = {
     [type.googleapis.com/o.Payload] { ratio: -1.5e300 }
+  };
+  option (o.details) = {
+    [type.googleapis.com/o.Payload.Part.Leaf] { v: "leaf" }
   };
   string f = 1 [
     (o.weight) = inf,
@@ -842,6 +851,7 @@ func wsAnyOptProto2() *wsDef {
 	w.Files["o/defs.proto"] = strings.NewReplacer(
 		`syntax = "proto3";`, `syntax = "proto2";`,
 		"  string text = 1;\n  double ratio = 2;", "  optional string text = 1;\n  optional double ratio = 2;",
+		"      string v = 1;", "      optional string v = 1;",
 		"  google.protobuf.Any detail", "  optional google.protobuf.Any detail",
 		"  double weight", "  optional double weight",
 		"  float fweight", "  optional float fweight",
@@ -852,6 +862,162 @@ func wsAnyOptProto2() *wsDef {
 		"  fixed64 fx", "  optional fixed64 fx",
 	).Replace(anyDefs)
 	return w
+}
+
+// ---------------------------------------------------------------------------------------------
+
+// scoped varies WHERE an extension that is used as a custom option is declared: at the top level of a
+// file and inside messages nested 1, 2, 3 and 4 levels deep; below the first and below a later top-level
+// message; for every kind of options message; extensions of an option payload message (extension of an
+// extension) declared at depth 2 and 3; extension types that are themselves nested messages / enums; in an
+// imported file and in the file that uses it. The text encodings (json, yaml) look every one of these up
+// by (extendee, number) in a resolver made from the image (or, on the source route, from the compiler's
+// results), so every declaration position is a separate path through those resolvers.
+const scopedDecl = `syntax = "proto2";
+package s;
+import "google/protobuf/descriptor.proto";
+
+// Cfg is an option payload that is extensible itself.
+message Cfg {
+  optional string id = 1;
+  extensions 100 to 199;
+}
+extend google.protobuf.FileOptions {
+  optional string top_file = 54001;
+}
+message First {
+  // depth 1
+  extend google.protobuf.FileOptions {
+    optional string d1_file = 54011;
+  }
+  extend google.protobuf.MessageOptions {
+    optional Cfg d1_msg = 54012;
+  }
+  message Inner {
+    // depth 2
+    extend google.protobuf.FieldOptions {
+      optional string d2_field = 54021;
+      repeated int32 d2_nums = 54022;
+    }
+    extend google.protobuf.MessageOptions {
+      optional Cfg d2_msg = 54023;
+    }
+    extend Cfg {
+      optional Leaf d2_cfg_ext = 100;
+    }
+    enum Mode {
+      MODE_OFF = 0;
+      MODE_ON = 1;
+    }
+    message Leaf {
+      optional int32 n = 1;
+      optional Mode mode = 2;
+    }
+    message Deep {
+      // depth 3
+      extend google.protobuf.EnumValueOptions {
+        optional Mode d3_enum_value = 54031;
+      }
+      extend google.protobuf.FileOptions {
+        optional Leaf d3_file = 54032;
+      }
+      extend google.protobuf.OneofOptions {
+        optional bool d3_oneof = 54033;
+      }
+      extend Cfg {
+        repeated string d3_cfg_labels = 101;
+      }
+      message Deeper {
+        // depth 4
+        extend google.protobuf.EnumOptions {
+          optional string d4_enum = 54041;
+        }
+      }
+    }
+  }
+}
+// Second: declarations that are not below the first top-level message of the file.
+message Second {
+  optional int32 filler = 1;
+  message Mid {
+    message Low {
+      extend google.protobuf.ServiceOptions {
+        optional string d3_service = 54051;
+      }
+      extend google.protobuf.MethodOptions {
+        optional Cfg d3_method = 54052;
+      }
+      extend google.protobuf.ExtensionRangeOptions {
+        optional int32 d3_range = 54053;
+      }
+    }
+    extend google.protobuf.FieldOptions {
+      optional bool d2_second_field = 54054;
+    }
+  }
+}
+`
+
+const scopedUse = `syntax = "proto2";
+package s;
+import "s/decl.proto";
+option (s.top_file) = "t";
+option (s.First.d1_file) = "one";
+option (s.First.Inner.Deep.d3_file) = { n: 3 mode: MODE_ON };
+
+message M {
+  option (s.First.d1_msg) = { id: "m1" [s.First.Inner.d2_cfg_ext] { n: 1 } };
+  option (s.First.Inner.d2_msg) = { id: "m2" [s.First.Inner.Deep.d3_cfg_labels]: "x" [s.First.Inner.Deep.d3_cfg_labels]: "y" };
+  extensions 10 to 20 [(s.Second.Mid.Low.d3_range) = 4];
+  optional string f = 1 [(s.First.Inner.d2_field) = "two", (s.First.Inner.d2_nums) = 1, (s.First.Inner.d2_nums) = 2];
+  optional int32 g = 2 [(s.Second.Mid.d2_second_field) = true];
+  oneof pick {
+    option (s.First.Inner.Deep.d3_oneof) = true;
+    string a = 3;
+    int32 b = 4;
+  }
+}
+enum E {
+  option (s.First.Inner.Deep.Deeper.d4_enum) = "four";
+  E_ZERO = 0 [(s.First.Inner.Deep.d3_enum_value) = MODE_ON];
+  E_ONE = 1;
+}
+service Svc {
+  option (s.Second.Mid.Low.d3_service) = "svc";
+  rpc Do(M) returns (M) {
+    option (s.Second.Mid.Low.d3_method) = { id: "rpc" };
+  }
+}
+`
+
+// declared (three levels deep) and used in the same file
+const scopedSelf = `syntax = "proto2";
+package t;
+import "google/protobuf/descriptor.proto";
+import "s/use.proto";
+message Outer {
+  message Mid {
+    message In {
+      extend google.protobuf.FieldOptions {
+        optional string self_tag = 54061;
+      }
+    }
+  }
+  optional s.M m = 1 [(t.Outer.Mid.In.self_tag) = "self"];
+}
+`
+
+func wsScoped() *wsDef {
+	return &wsDef{
+		Name: "scoped", Quick: true,
+		Files: map[string]string{
+			"buf.yaml":     "version: v1\n",
+			"s/decl.proto": scopedDecl,
+			"s/use.proto":  scopedUse,
+			"t/self.proto": scopedSelf,
+		},
+		Modules: []module{{".", ""}},
+	}
 }
 
 // ---------------------------------------------------------------------------------------------
